@@ -4,6 +4,7 @@ package parse
 import (
 	"errors"
 	"fmt"
+	"reflect"
 	"regexp"
 	"runtime"
 	"strconv"
@@ -833,7 +834,31 @@ func (t *tree) parseQuotedExpr(str string) ast.Node {
 			panic(e)
 		}
 	}()
-	return tt.parseExpr(0)
+	var node = tt.parseExpr(0)
+	// The nested parser numbers positions from the start of the string; give
+	// the nodes the position of the enclosing tag instead, so that a render
+	// error raised in the expression points at the right line of the file.
+	var tok = t.token[0]
+	if t.peekCount > 0 {
+		tok = t.token[t.peekCount-1]
+	}
+	setPosition(node, tok.pos)
+	return node
+}
+
+// setPosition sets the position of node and of all its descendants.
+func setPosition(node ast.Node, pos ast.Pos) {
+	if node == nil || reflect.ValueOf(node).IsNil() {
+		return
+	}
+	if f := reflect.ValueOf(node).Elem().FieldByName("Pos"); f.IsValid() && f.CanSet() {
+		f.SetInt(int64(pos))
+	}
+	if parent, ok := node.(ast.ParentNode); ok {
+		for _, child := range parent.Children() {
+			setPosition(child, pos)
+		}
+	}
 }
 
 var precedence = map[itemType]int{
